@@ -76,6 +76,9 @@ type Side struct {
 // knows it).
 const AcceptTimeout = 15 * time.Second
 
+// MustAddr parses a multiaddr literal.
+func MustAddr(s string) ma.Multiaddr { return ma.StringCast(s) }
+
 // FixedPSK is the 32-byte pre-shared key used by every PSK configuration.
 var FixedPSK = ipnet.PSK("0123456789abcdef0123456789abcdef")
 
